@@ -428,6 +428,7 @@ def validate(E, seed, tier):
 
 
 META = {
+    "glue": ['groupby_lib/groupby/core.py::_apply_gb_func_across_chunked_group_keys', 'groupby_lib/groupby/core.py::_apply_gb_reduction', 'groupby_lib/groupby/core.py::_find_first_chunk_in_slice', 'groupby_lib/groupby/core.py::_group_sort_indexer', 'groupby_lib/groupby/core.py::_max_threads_for_numba', 'groupby_lib/groupby/core.py::_resolve_mask_argument_into_chunks', 'groupby_lib/groupby/core.py::_unify_for_positional_mask', 'groupby_lib/groupby/core.py::_unify_group_key_chunks', 'groupby_lib/groupby/core.py::count_ikey', 'groupby_lib/groupby/numba.py::_apply_group_method_single_chunk', 'groupby_lib/groupby/numba.py::_build_target_for_groupby', 'groupby_lib/groupby/numba.py::_chunk_args_for_chunked_values', 'groupby_lib/groupby/numba.py::_chunk_args_for_unchunked_values', 'groupby_lib/groupby/numba.py::_chunk_groupby_args', 'groupby_lib/groupby/numba.py::_group_func_wrap', 'groupby_lib/groupby/numba.py::combine_chunk_results_for_factorized_key', 'groupby_lib/groupby/numba.py::group_count', 'groupby_lib/groupby/numba.py::group_mean', 'groupby_lib/groupby/numba.py::group_size', 'groupby_lib/groupby/numba.py::group_sum', 'groupby_lib/util.py::_cast_timestamps_to_ints', 'groupby_lib/util.py::_null_value_for_numpy_type', 'groupby_lib/util.py::array_split_with_chunk_handling', 'groupby_lib/util.py::check_data_inputs_aligned', 'groupby_lib/util.py::jit_is_null', 'groupby_lib/util.py::parallel_map'],
     "bounds": {"quick": {"N": 4, "G": 2, "threads": "2..4 vs 1", "value_chunks": "2 parts", "key_chunks": "2 chunks", "completion orders": "all 3!, a quarter of 4!"},
                "thorough": {"N": 6, "G": 3, "threads": "2..4 vs 1", "value_chunks": "<= 3 parts", "key_chunks": "<= 3 chunks", "completion orders": "all 3! and 4!"}},
     "enumerated": ["thread count", "chunk layouts of values and of keys", "completion order of the thread-pool tasks (permutation handed to the as_completed model)",
